@@ -6,6 +6,7 @@
                                               of /repo under /tmp, removed afterwards) must be
                                               caught by the property's check within a small budget
   bin/check selftest reach [PROPS...]         reads evidence/<id>.json: every probe non-zero
+  bin/check selftest worldgen [PROPS...]      every world of every tier generates and serialises
 
 The quick/thorough commands never touch scratch copies; they only read /repo.
 """
@@ -172,6 +173,30 @@ def reach(props):
     return 0 if bad == 0 else 1
 
 
+def worldgen(props):
+    """Every world of every tier (quick: all indices; thorough: every 7th) for four seeds must be
+    generated without error, and JSON-serialisable — a generator bug is a harness error waiting to happen."""
+    from sim.props import SPECS
+
+    bad = 0
+    n = 0
+    for prop in props or sorted(SPECS):
+        spec = SPECS[prop]
+        for tier in ("quick", "thorough"):
+            step = 1 if tier == "quick" else 7
+            for seed in (0, 1, 2, 3):
+                for idx in range(0, spec.tiers[tier]["buckets"] * spec.bucket_k, step):
+                    n += 1
+                    try:
+                        core.canon_json(spec.world_for(tier, seed, idx))
+                    except Exception as e:  # noqa: BLE001
+                        bad += 1
+                        if bad <= 3:
+                            print(f"worldgen {prop} {tier} seed={seed} idx={idx}: {type(e).__name__}: {e}")
+    print(f"worldgen: {n} worlds generated, {bad} errors")
+    return 0 if bad == 0 else 2
+
+
 def main(argv):
     if not argv:
         print(__doc__)
@@ -188,5 +213,7 @@ def main(argv):
         return determinism(rest)
     if cmd == "reach":
         return reach(rest)
+    if cmd == "worldgen":
+        return worldgen(rest)
     print(__doc__)
     return 2
